@@ -1620,7 +1620,8 @@ impl Plan {
 
 fn pair_pool() -> Vec<V> {
     let mut v = vec![V::Unit, V::True, V::False];
-    for i in [0, 1, -1, 2, 97, 255, 256, 65536, i32::MAX, i32::MIN, i32::MAX - 1, 1 << 30, -(1 << 30)] {
+    // -13291983 and 875770417 are the integers whose bytes spell the texts "1.5" and "1.24"-like float renderings
+    for i in [0, 1, -1, 2, 97, 255, 256, 65536, i32::MAX, i32::MIN, i32::MAX - 1, 1 << 30, -(1 << 30), -13291983, -13357519, -13291982] {
         v.push(V::Int(i));
     }
     for f in [0.5, 1.0, 1.25, 1.5, 1.75, -1.5, -1.25, 2.0, 2.5, 2.25, 97.0, 97.5, 1.0e10, 1.0e10 + 2.0, 1.0e-10, 2.0e-10, 4294967296.0, 4294967297.0, 0.1, 0.30000000000000004, 0.3, f64::MAX, f64::MIN_POSITIVE] {
